@@ -8,7 +8,7 @@ MODES = ["gregorian"]
 FUNCS = ["datetimeoper:DateTimeOperator.date_diff", ("data:TimePoint.__sub__", r"^tp:(cal-hms/cal-hms|ord-hm/week-h)$"), ("data:TimePoint._cmp", r"^lt:(cal-hms/cal-hms|ord-hm/week-h)$")]
 LEMMAS = CAL_LEMMAS
 CANARIES = ["canary.week52"]
-EXPLANATION = ("PROVED: DateTimeOperator.date_diff returns (d, sign) with len(d) >= 0 and first +- d == second for every pair of points; the comparison and difference operations it uses (shifting is C01/C05). BOUNDED (whole-program I/O through argparse and stdout is outside any contract in reach): main(argv) stdout / exit status against the library calls for date-times in 9 notations x 0..3 offsets x 5 calendar selections, pairs with --as-total, recurrences with --max, --utc/--ref/environment, and malformed arguments in every positional slot (never a traceback).")
+EXPLANATION = ("PROVED: DateTimeOperator.date_diff returns (d, sign) with len(d) >= 0 and first +- d == second for every pair of points; the comparison and difference operations it uses (shifting is C01/C05). STATIC: every operator call of main() sits under a handler that catches ValueError and exits with the message (with C09: explicit raises are ValueError subclasses). EXHAUSTIVE: calendar selection = option, else environment, else gregorian, whatever mode an earlier operator left. BOUNDED (whole-program I/O through argparse and stdout is outside any contract in reach): main(argv) stdout / exit status against the library calls for date-times in 9 notations x 0..3 offsets x 5 calendar selections, pairs with --as-total, recurrences with --max, --utc/--ref/environment, and malformed arguments in every positional slot (never a traceback).")
 ASSUMPTIONS = ["argparse, stdout, stdin, now, datetime fallbacks are external"]
 LEVEL_TEXT = "Library operations: proof; CLI plumbing: bounded grid. Hence other."
 LEVEL_NOTE = "see DESIGN section 5/C19"
@@ -23,5 +23,69 @@ def custom(tier, seed, repo):
             if any(m in n for m in ("datetimeoper:", "main:"))]
 
 
+def handler_obligations(repo):
+    """main() turns every ValueError of the operator calls into a message + non-zero
+    exit: each operator call of main() sits in a try whose handlers catch ValueError
+    (or a base of it) and exit through sys.exit; together with C09's obligation that
+    every explicit raise on the parse paths constructs a ValueError subclass."""
+    import ast
+    import builtins
+    from pyvc.source import SourceDB
+    db = SourceDB(repo)
+    fi = db.funcs.get("main:main")
+    out = []
+    if fi is None:
+        return [{"name": "main.handler-covers-ValueError", "ok": False,
+                 "detail": "main:main not found", "backend": "ast-handlers", "reproduced": False}]
+    covered = {}
+
+    def catches(h):
+        if h.type is None:
+            return True
+        names = [h.type] if not isinstance(h.type, ast.Tuple) else list(h.type.elts)
+        for t in names:
+            nm = ast.unparse(t).split(".")[-1]
+            ci = db.class_by_name.get(nm)
+            real = ci.real if ci is not None else getattr(builtins, nm, None)
+            if isinstance(real, type) and issubclass(ValueError, real):
+                return True
+        return False
+
+    def visit(node, ok):
+        if isinstance(node, ast.Try):
+            inner = ok or any(catches(h) and "sys.exit" in ast.unparse(h) for h in node.handlers)
+            for b in node.body:
+                visit(b, inner)
+            for part in (node.handlers, node.orelse, node.finalbody):
+                for b in part:
+                    visit(b, ok)
+            return
+        if isinstance(node, ast.Call) and isinstance(node.func, ast.Attribute) and \
+                ast.unparse(node.func.value) == "date_time_oper":
+            covered[(node.lineno, node.func.attr)] = ok
+        for c in ast.iter_child_nodes(node):
+            visit(c, ok)
+    visit(fi.node, False)
+    if not covered:
+        out.append({"name": "main.handler-covers-ValueError", "ok": False,
+                    "detail": "no operator call found in main()", "backend": "ast-handlers",
+                    "reproduced": False})
+    for (ln, meth), ok in sorted(covered.items()):
+        out.append({"name": "main.handler-covers-ValueError[%s@%d]" % (meth, ln), "ok": ok,
+                    "detail": "date_time_oper.%s(...) at main.py:%d is %sinside a try whose "
+                              "handler catches ValueError and calls sys.exit" % (
+                                  meth, ln, "" if ok else "NOT "),
+                    "backend": "ast-handlers", "reproduced": False})
+    return out
+
+
+_memo_custom = custom
+
+
+def custom(tier, seed, repo):
+    return _memo_custom(tier, seed, repo) + handler_obligations(repo)
+
+
 def bounded(tier, seed, repo):
-    return text_bounded.check_c19(tier, seed, repo)
+    from . import C15
+    return text_bounded.check_c19(tier, seed, repo) + [C15.mode_selection(repo)]
